@@ -159,6 +159,20 @@ pub fn main(a: Args) -> i32 {
         Scen { oracle_only: true, name: "long-name-update", base: Some(both(t(&[("f", v1), (&"n".repeat(250), v1)]))), a: t(&[("f", v2), (&"n".repeat(250), &big)]), b: t(&[("f", v1), (&"n".repeat(250), v1)]) },
         Scen { oracle_only: false, name: "several-paths", base: Some(both(t(&[("a", v1), ("b", v1), ("c", v1), ("d/e", v1)]))), a: t(&[("a", v2), ("b", v1), ("d/e", v3), ("n", v3)]), b: t(&[("a", v1), ("b", v2), ("c", v1), ("d/e", v2)]) },
     ];
+    {
+        // a run with more actions than any batching constant a maintainer would pick (70 updates, a delete, a create): the
+        // record must still be written once, after the last data rename; kill points are sampled (every 9th)
+        let names: Vec<String> = (0..70).map(|i| format!("b{:02}", i)).collect();
+        let mut base = Tree::new();
+        let mut ta = Tree::new();
+        for n in &names { base.insert(n.clone(), v1.to_vec()); ta.insert(n.clone(), v2.to_vec()); }
+        base.insert("z-del".into(), v3.to_vec());
+        let mut tb = base.clone();
+        tb.remove("z-del");
+        ta.insert("z-del".into(), v3.to_vec());
+        ta.insert("z-new".into(), v3.to_vec());
+        scens.push(Scen { oracle_only: true, name: "bulk-72-actions", base: Some((base.clone(), base)), a: ta, b: tb });
+    }
     if a.tier == "thorough" {
         let mut r = Rng::new(a.seed ^ 0xC08);
         let pool: Vec<&[u8]> = vec![v1, v2, v3, b""];
@@ -254,6 +268,7 @@ pub fn main(a: Args) -> i32 {
         let versions: Vec<&Vec<u8>> = sc.a.values().chain(sc.b.values()).collect();
         // ---- every kill point
         for k in 1..=nmut {
+            if sc.name == "bulk-72-actions" && k % 9 != 4 && k + 12 < nmut { continue; }
             setup(&env);
             let _ = std::fs::remove_file(&logf);
             let ev = envs(Some(k));
